@@ -111,6 +111,22 @@ def _install():
         return out
 
     cmc.CouplingSimulation.coupling_states_for_a_slice = coupling_states_for_a_slice
+
+    o_pair = cmc.CouplingMarkovChain.simulate_one_path_with_coupling
+
+    def simulate_one_path_with_coupling(self):
+        path = o_pair(self)
+        st = _st()
+        if st is not None and "pairs" in st:
+            try:
+                sim = type(getattr(self, "_path_coupling_simulation", None)).__name__
+                st["pairs"].append((self.level, np.array(path.times(), dtype=float, copy=True),
+                                    np.array(path.jump_path, dtype=float, copy=True), sim))
+            except Exception:
+                pass
+        return path
+
+    cmc.CouplingMarkovChain.simulate_one_path_with_coupling = simulate_one_path_with_coupling
     _installed = True
 
 
@@ -327,7 +343,9 @@ def execute(wd, sc):
             ctx.nprs.set_state(saved)
             ctx.fp_np = __import__("simkit.world", fromlist=["fp_np"]).fp_np(ctx.nprs)
 
-    wd.c03 = {"transitions": [], "slices": [], "hook": hook}
+    wd.c03 = {"transitions": [], "slices": [], "hook": hook, "pairs": []}
+    if sc["variant"] == "sde":
+        wd.record_values = True  # the normal variates of the level-0 paths are part of the reference below
     try:
         if sc["variant"] == "sde":
             from rpylib.model.levymodel.levymodel import ModelType
@@ -406,6 +424,32 @@ def execute(wd, sc):
                 mech = "uses-the-level-0-drift" if 0 in lvl0_drift and abs(got_c - lvl0_drift[0]) <= 1e-10 * (1 + abs(got_c)) and lvl >= 2 else "other"
                 add(f"C03.c|coarse component of the SDE pair is not driven with the drift of the previous level's chain|{mech}|sde-coupling",
                     {"level": lvl, "got": float(got_c), "expected": mu_c})
+    # ---- c (paths, level 0 of the SDE runs): with a = 1 the diffusion part of a level-0 path is the level-0 chain's
+    # coefficient times the Brownian increments it drew - the coefficient the coarse component of level 1 is given
+    if sc["variant"] == "sde" and wd.c03["transitions"]:
+        first = min(wd.c03["transitions"], key=lambda t_: t_[0]["level"])[0]
+        if first["level"] == 0:
+            sigma0 = float(first["sigma_fine"])
+            normals = [np.asarray(d[8], dtype=float).ravel() for d in wd.draws
+                       if d[0] == "np" and d[1] == "normal" and d[8] is not None and "simulate_diffusion" in d[4]
+                       and "with_coupling" not in d[4]]
+            lvl0 = [smp for smp in wd.samples if smp.get("level") == 0 and "drift" in smp and "diff" in smp]
+            if len(normals) == len(lvl0):
+                for w_, smp in zip(normals, lvl0):
+                    d_ = np.asarray(smp["diff"], dtype=float)
+                    t_ = np.asarray(smp["times"], dtype=float)
+                    if d_.ndim != 2 or d_.shape[0] != 1 or w_.size != t_.size - 1:
+                        continue
+                    wd.probes["c03.level0_diffusion_checked"] += 1
+                    exp_ = sigma0 * np.sqrt(np.diff(t_)) * w_
+                    got_ = np.diff(d_[0])
+                    if not np.allclose(got_, exp_, rtol=1e-10, atol=1e-13 * (1.0 + np.max(np.abs(exp_), initial=0.0))):
+                        zero = bool(np.all(got_ == 0.0))
+                        add(f"C03.c|diffusion part of a level-0 path is not the level-0 coefficient (the one the coarse component of level 1 gets) times its Brownian increments|{'no-diffusion-at-all' if zero else 'other'}|sde-coupling",
+                            {"sigma_level_0": sigma0, "got": got_.tolist()[:4], "expected": exp_.tolist()[:4]})
+                        break
+            else:
+                wd.probes["c03.level0_normals_not_attributed"] += 1
     # ---- c (paths): the two diffusion components of every simulated pair are ONE Brownian path scaled by the level's
     # and by the previous level's coefficient: sigma_(l-1) * dW_fine-component == sigma_l * dW_coarse-component
     if sc["variant"] != "sde":
@@ -431,6 +475,24 @@ def execute(wd, sc):
                     {"level": lvl, "sigma_previous": s_c, "sigma_level": s_f, "fine_increments": inc_f.tolist()[:4],
                      "coarse_increments": inc_c.tolist()[:4]})
                 break
+    # ---- a (paths): the coarse jump component of a simulated pair is piecewise constant between the fine jumps - it may
+    # move only at a time at which the fine component moves (also on the points a maximum time step inserts)
+    for (lvl, ptimes, pj, sim) in wd.c03.get("pairs", []):
+        if pj.ndim != 2 or pj.shape[0] != 2 or pj.shape[1] < 2:
+            continue
+        if "FixedTimes" in sim or sim == "NoneType":
+            continue  # observed on the product dates only: several jumps (that may cancel in one component) per step
+        wd.probes["c03.pair_path_checked"] += 1
+        df_, dc_ = np.diff(pj[0]), np.diff(pj[1])
+        if np.any(df_ == 0.0):
+            wd.probes["c03.pair_path_with_jump_free_steps"] += 1
+        bad = np.flatnonzero((df_ == 0.0) & (np.abs(dc_) > 1e-12 * (1.0 + np.max(np.abs(pj[1])))))
+        if bad.size:
+            i = int(bad[0])
+            add(f"C03.a|the coarse component of a simulated pair moves at a time at which the fine component does not jump|method={sc['process']['method']}",
+                {"level": lvl, "time": float(ptimes[i + 1]) if i + 1 < ptimes.size else None,
+                 "coarse_before_after": [float(pj[1][i]), float(pj[1][i + 1])], "fine": float(pj[0][i])})
+            break
     # ---- a: every coupled jump of every path ----------------------------------------------------------------
     for (lvl, incs, coarse_cum) in wd.c03["slices"]:
         if lvl not in levels or not incs:
